@@ -8,7 +8,11 @@ import (
 	"strings"
 	"sync"
 
+	corev1 "k8s.io/api/core/v1"
+	"k8s.io/apimachinery/pkg/runtime"
 	"k8s.io/client-go/kubernetes"
+	k8sfake "k8s.io/client-go/kubernetes/fake"
+	k8stesting "k8s.io/client-go/testing"
 	galaxypolicy "tkestack.io/galaxy/pkg/policy"
 	"tkestack.io/galaxy/pkg/utils/ipset"
 	utiliptables "tkestack.io/galaxy/pkg/utils/iptables"
@@ -130,6 +134,8 @@ type Manager struct {
 	PM    *galaxypolicy.PolicyManager
 	World *World
 	B     Backend
+	// SeenPolicy: this process has been shown a NetworkPolicy (then the daemon has started its pod informer factory)
+	SeenPolicy bool
 }
 
 // NewManager builds the REAL PolicyManager (hook constructor) over the backend and harness-controlled listers.
@@ -140,8 +146,41 @@ func NewManager(b Backend, node string, client kubernetes.Interface) *Manager {
 	return &Manager{PM: pm, World: w, B: b}
 }
 
+// NewFreshManager builds the PolicyManager the way the daemon has it at start-up: the pod informer factory is started
+// (HasSynced becomes true) only once a NetworkPolicy has been seen; until then syncPods lists the pods of this node
+// through the API client (a fake clientset whose pod list is served from the harness' world, spec.nodeName selector
+// applied).
+func NewFreshManager(b Backend, node string) *Manager {
+	SetNodeName(node)
+	w := &World{}
+	m := &Manager{World: w, B: b}
+	cs := k8sfake.NewSimpleClientset()
+	cs.PrependReactor("list", "pods", func(action k8stesting.Action) (bool, runtime.Object, error) {
+		la, _ := action.(k8stesting.ListAction)
+		sel := ""
+		if la != nil {
+			sel = la.GetListRestrictions().Fields.String()
+		}
+		list := &corev1.PodList{}
+		for _, p := range w.pods {
+			if sel == "" || sel == "spec.nodeName="+p.Spec.NodeName {
+				list.Items = append(list.Items, *p)
+			}
+		}
+		return true, list, nil
+	})
+	m.PM = galaxypolicy.VerifNewLazy(cs, b.Ips, b.Ipt, node, w.PodLister(), w.NamespaceLister(), w.PolicyLister(),
+		func() bool { return m.SeenPolicy })
+	return m
+}
+
 // FullSync is PolicyManager.Run's body: policies -> policy rules -> pod chains.
-func (m *Manager) FullSync() { m.PM.Run() }
+func (m *Manager) FullSync() {
+	if len(m.World.pols) > 0 {
+		m.SeenPolicy = true
+	}
+	m.PM.Run()
+}
 
 // ---------- dump
 
